@@ -133,9 +133,39 @@ Qed.
 (* the "+" form: every word bare and un-starred, a "+" somewhere, and after the first "+" of the
    glued text no piece is blank *)
 Definition qs (w:word) : bool := isq w || starts_star (wv w).
-Definition plus_form (src:list word) : bool :=
+Definition plus_form0 (src:list word) : bool :=
   negb (existsb qs src) && existsb (fun w => mem plus (wv w)) src
   && forallb (fun v => negb (blank v)) (tl (split_on plus (List.concat (map wv src)))).
+(* the master's alternatives: its words' values with the selection star removed (original case) *)
+Definition alts_of (m:list word) : list str := map (fun w => unstar (wv w)) m.
+(* the source is the complete list of the master's alternatives, no star, same case, same order
+   (what format writes when nothing is selected) *)
+Definition full_list (m src:list word) : bool := names_eqb (map wv src) (alts_of m).
+(* the "+" form relative to a master: the complete list is never read as a+b *)
+Definition plus_form (m src:list word) : bool := negb (full_list m src) && plus_form0 src.
+
+Lemma names_eqb_true_iff : forall a b, names_eqb a b = true <-> a = b.
+Proof.
+  induction a as [|x a IH]; destruct b as [|y b]; cbn; split; intro H; try reflexivity; try discriminate.
+  - apply andb_true_iff in H. destruct H as [H1 H2]. apply eqs_true_iff in H1. apply IH in H2. congruence.
+  - inversion H; subst. rewrite eqs_refl. cbn. apply IH. reflexivity.
+Qed.
+Lemma names_eqb_refl : forall a, names_eqb a a = true.
+Proof. intro a. apply names_eqb_true_iff. reflexivity. Qed.
+Lemma full_list_true_iff : forall m src, full_list m src = true <-> map wv src = alts_of m.
+Proof. intros. unfold full_list. apply names_eqb_true_iff. Qed.
+Lemma plus_form_full : forall m src, full_list m src = true -> plus_form m src = false.
+Proof. intros m src H. unfold plus_form. rewrite H. reflexivity. Qed.
+Lemma plus_form_not_full : forall m src, full_list m src = false -> plus_form m src = plus_form0 src.
+Proof. intros m src H. unfold plus_form. rewrite H. reflexivity. Qed.
+Lemma plus_form_true_inv : forall m src,
+  plus_form m src = true -> full_list m src = false /\ plus_form0 src = true.
+Proof.
+  intros m src H. unfold plus_form in H. apply andb_true_iff in H. destruct H as [H1 H2].
+  apply negb_true_iff in H1. split; assumption.
+Qed.
+Lemma plus_form0_false : forall m src, plus_form0 src = false -> plus_form m src = false.
+Proof. intros m src H. unfold plus_form. rewrite H. apply andb_false_r. Qed.
 
 Lemma detect_spec : forall ws hp,
   detect ws hp = (existsb qs ws,
@@ -155,12 +185,13 @@ Proof.
   induction vals as [|v r IH]; cbn; [reflexivity|].
   rewrite strip_len0. destruct (blank v); cbn; [reflexivity | exact IH].
 Qed.
-Lemma process_plus_spec : forall src, process_plus src = plus_form src.
+Lemma process_plus_spec : forall m src, process_plus (map (fun w => unstar (wv w)) m) src = plus_form m src.
 Proof.
-  intro src. unfold process_plus, plus_form, join_empty.
+  intros m src. unfold process_plus, plus_form, plus_form0, full_list, alts_of, join_empty.
   destruct (detect_spec src false) as [H1 H2]. rewrite H1.
-  destruct (existsb qs src) eqn:Q; cbn; [reflexivity|].
+  destruct (existsb qs src) eqn:Q; cbn; [rewrite andb_false_r; reflexivity|].
   rewrite (H2 eq_refl). cbn.
+  destruct (names_eqb (map wv src) (map (fun w => unstar (wv w)) m)); cbn; [reflexivity|].
   destruct (existsb (fun w => mem plus (wv w)) src); cbn; [apply all_nonblank_spec | reflexivity].
 Qed.
 
@@ -179,10 +210,11 @@ Definition plus_pieces (src:list word) : list (str * nat) :=
   flat_map (fun w => map (fun v => (v, wline w)) (filter nonempty (split_on plus (wv w)))) src.
 Definition plus_names (src:list word) : list str := map fst (plus_pieces src).
 
-(* does the source ask for the alternative whose lower-cased name is k ?  (source not plain Auto) *)
-Definition requested (mand:bool) (src:list word) (k:str) : bool :=
+(* does the source ask for the alternative whose lower-cased name is k ?  (source not plain Auto;
+   m is the master, which decides whether the source is the complete list) *)
+Definition requested (mand:bool) (m src:list word) (k:str) : bool :=
   if negb mand && is_plain_none src then false
-  else if plus_form src then mems k (map lowers (plus_names src))
+  else if plus_form m src then mems k (map lowers (plus_names src))
   else match last_match k src with
        | Some w => starts_star (wv w) || (length src =? 1)%nat
        | None => false
